@@ -324,6 +324,20 @@ pub fn hostile_datagrams() -> Vec<(String, Vec<u8>)> {
         names.push((format!("{}-alone", tag), RefName(vec![B(l.clone())])));
         names.push((format!("{}-tld", tag), RefName(vec![B(b"a".to_vec()), B(l.clone())])));
     }
+    // multi-byte characters (valid, and lossy renderings of invalid bytes) at every byte offset of
+    // the rendered instance name, alone and after a long first label
+    for (i, l) in crate::gen::alignment_labels().into_iter().enumerate() {
+        let mut n = vec![B(l)];
+        n.extend(svc.0.iter().cloned());
+        names.push((format!("align{}-under-service", i), RefName(n)));
+    }
+    for k in 55..=63usize {
+        for second in ["éé", "€x", "\u{1F600}"] {
+            let mut n = vec![B(vec![b'x'; k]), B(second.as_bytes().to_vec())];
+            n.extend(svc.0.iter().cloned());
+            names.push((format!("two-label-instance-{}-{}", k, second.len()), RefName(n)));
+        }
+    }
     names.push(("name255".into(), crate::gen::max_name()));
     let mut long_under = vec![B(vec![b'y'; 63]), B(vec![b'z'; 63]), B(vec![b'w'; 63])];
     long_under.extend(svc.0.iter().cloned());
@@ -341,7 +355,9 @@ pub fn hostile_datagrams() -> Vec<(String, Vec<u8>)> {
         r.answers.push(RefRR { name: n.clone(), class: 1, cache_flush: false, ttl: 120, rdata: typed(16, vec![Val::Strs(vec![B(vec![0xff, b'=', 0x80]), B(b"k".to_vec()), B(vec![])])]) });
         r.additional.push(RefRR { name: svc.clone(), class: 1, cache_flush: false, ttl: 120, rdata: typed(12, vec![Val::Name(n.clone())]) });
         out.push((format!("response-{}", tag), r.encode(0)));
-        out.push((format!("response-compressed-{}", tag), r.encode_compressed(0, true)));
+        if !tag.starts_with("align") && !tag.starts_with("two-label") {
+            out.push((format!("response-compressed-{}", tag), r.encode_compressed(0, true)));
+        }
     }
     // sizes
     let mut big = vec![0u8; 9000];
